@@ -1126,7 +1126,7 @@ func c11EmitAppend(e *Emitter, c *c11Cfg, order []int, tags []string) {
 
 func genC11(tier string, seed uint64, n int, e *Emitter) {
 	if n == 0 {
-		n = 300
+		n = 220
 		if tier == "thorough" {
 			n = 6000
 		}
